@@ -8,6 +8,7 @@ CONSTANTS
   Cfgs <- mc_Cfgs
   InitCfg <- mc_Cfg0
   StressRates <- mc_Stress
+  ReloadPairs <- mc_ReloadPairs
   EjectShares = {1}
   DefTimeout = 60
   DefDelay = 2
